@@ -352,8 +352,24 @@ func (p *Parser) parseCallArguments() []Expression {
 func (p *Parser) ParseUpdateExpression() *UpdateStatement {
 	stmt := &UpdateStatement{Token: p.curToken}
 
+	if p.curToken.Type == EOF {
+		return stmt
+	}
+
+	stmt.Expression = p.parseExpression(precedenceValueLowset)
+
+	p.nextToken()
+
+	// the whole input must be one update expression, nothing may precede or follow it
 	for p.curToken.Type != EOF {
-		stmt.Expression = p.parseExpression(precedenceValueLowset)
+		errorsBefore := len(p.errors)
+
+		p.parseExpression(precedenceValueLowset)
+
+		if len(p.errors) == errorsBefore {
+			msg := fmt.Sprintf("Syntax error; unexpected token in the update expression, near: %q", p.curToken.Literal)
+			p.errors = append(p.errors, msg)
+		}
 
 		p.nextToken()
 	}
